@@ -398,3 +398,28 @@ def check_exponent_reader(ctx, rep):
     else:
         rep.bad("T-SPEC", "T-SPEC:number:exponent-read-like-mantissa", b.where(), "the exponent digits are read by %s (own loop: %s) while the mantissa is read by %s: spellings the grammar allows in both places (`_` separators) are accepted in one and refused in the other" % (re_ or "no digit reader", bool(loops), rm))
     return 1
+
+
+def check_line_breaks_are_tokens(ctx, rep):
+    """in Zinc a line break ends the version line, the column line and every row, so the lexer hands it out as a token: the token
+    reader skips blanks (spaces / tabs) only. The skipper that also eats line breaks exists for the places of the grammar that
+    allow blank lines (between rows, before a nested grid); a who-may-call rule: it is not called from `Lexer::read`"""
+    from vlib import mir
+    from vlib.mir import strip_generics
+
+    prog = ctx.prog
+    rd = next((b for b in prog.bodies.values() if strip_generics(b.id).endswith("zinc::decode::lexer::Lexer::read") and b.rec["kind"] != "Closure"), None)
+    if rd is None:
+        rep.gap("Lexer::read", "-", "not found")
+        return 0
+    fam = [rd] + [prog.bodies[c] for c in prog.closures_of.get(rd.id, [])]
+    bad = [(b, bi, strip_generics(mir.callee_name(t) or "")) for b in fam for bi, t in b.calls() if strip_generics(mir.callee_name(t) or "").endswith("::consume_white_spaces")]
+    blanks = [1 for b in fam for _bi, t in b.calls() if strip_generics(mir.callee_name(t) or "").endswith("::consume_spaces")]
+    if bad:
+        b, bi, nm = bad[0]
+        rep.bad("T-SPEC", "T-SPEC:lexer:line-break-is-a-token", b.where(bi), "the token reader skips white space with %s, which also consumes line breaks: a blank before the end of a line swallows the line break and two lines of the grid fuse" % nm.split("::")[-2:])
+    elif blanks:
+        rep.ok("T-SPEC", "lexer:line-break-is-a-token", rd.where(), "the token reader skips blanks only (consume_spaces)")
+    else:
+        rep.gap("lexer:line-break-is-a-token", rd.where(), "no blank skipper found in Lexer::read")
+    return 1
